@@ -9,14 +9,17 @@ import (
 	"flag"
 	"fmt"
 	"os"
+	"sort"
 	"sync"
 	"time"
 
 	"github.com/awslabs/operatorpkg/status"
 	corev1 "k8s.io/api/core/v1"
 	apierrors "k8s.io/apimachinery/pkg/api/errors"
+	"k8s.io/apimachinery/pkg/api/resource"
 	metav1 "k8s.io/apimachinery/pkg/apis/meta/v1"
 	"k8s.io/apimachinery/pkg/runtime/schema"
+	"k8s.io/utils/clock"
 	"sigs.k8s.io/controller-runtime/pkg/client"
 	"sigs.k8s.io/controller-runtime/pkg/client/interceptor"
 
@@ -61,28 +64,34 @@ type FaultSpec struct {
 type Step struct {
 	A string `json:"a"`
 	// object construction / environment
-	Name        string            `json:"name"`
-	Pool        string            `json:"pool"`
-	Pid         string            `json:"pid"`
-	ExpireAfter int               `json:"expireAfter"` // seconds, -1 = Never
-	Launched    string            `json:"launched"`    // condition status, "" = absent
-	Registered  string            `json:"registered"`
-	NoFinalizer bool              `json:"noFinalizer"`
-	Instance    bool              `json:"instance"` // the provider has a running instance with this pid
-	Unmanaged   bool              `json:"unmanaged"`
-	Ready       string            `json:"ready"` // "" = no Ready condition
-	Conds       map[string]string `json:"conds"`
-	Type        string            `json:"type"`
-	Status      string            `json:"status"`
-	To          int               `json:"to"` // Tick: absolute instant = to seconds + ms milliseconds since the epoch
-	Ms          int               `json:"ms"`
-	Deleting    bool              `json:"deleting"` // Node: already terminating (deleted, lingering behind its finalizer)
+	Name         string            `json:"name"`
+	Pool         string            `json:"pool"`
+	Pid          string            `json:"pid"`
+	ExpireAfter  int               `json:"expireAfter"` // seconds, -1 = Never
+	Launched     string            `json:"launched"`    // condition status, "" = absent
+	Registered   string            `json:"registered"`
+	Initialized  string            `json:"initialized"`
+	StartupTaint bool              `json:"startupTaint"` // Claim: the claim declares the startup taint
+	ExtRes       int               `json:"extRes"`       // Claim: requests the extended resource
+	Res          string            `json:"res"`          // Node: extended resource reported as "zero" | "one" ("" = not at all)
+	Taints       []string          `json:"taints"`       // Node / Untaint: startup | ephemeral | unregistered
+	NoFinalizer  bool              `json:"noFinalizer"`
+	Instance     bool              `json:"instance"` // the provider has a running instance with this pid
+	Unmanaged    bool              `json:"unmanaged"`
+	Ready        string            `json:"ready"` // "" = no Ready condition
+	Conds        map[string]string `json:"conds"`
+	Type         string            `json:"type"`
+	Status       string            `json:"status"`
+	To           int               `json:"to"` // Tick: absolute instant = to seconds + ms milliseconds since the epoch
+	Ms           int               `json:"ms"`
+	Deleting     bool              `json:"deleting"` // Node: already terminating (deleted, lingering behind its finalizer)
 	// reconciles
 	Faults     []FaultSpec `json:"faults"`
 	Prov       string      `json:"prov"`       // provider List (Gc) / Create (Live) outcome: ok|err|...
 	LookupFail []string    `json:"lookupFail"` // Gc: provider ids whose Node lookup fails ("*" = all)
 	LookupErr  string      `json:"lookupErr"`  // kind of that failure: Server (default) | NotFound | Timeout | TooManyRequests
 	Stale      int         `json:"stale"`      // reconcile with the object as last handed to this controller
+	Mid        []Step      `json:"mid"`        // Gc: environment steps that happen between the pass's two listing reads
 }
 
 type Cfg struct {
@@ -107,6 +116,7 @@ type sim struct {
 	pools  map[string]*v1.NodePool
 	views  map[string]client.Object // last object handed to a controller (stale reconciles)
 
+	mid        []Step // pending mid-reconcile environment steps (run once, after the first listing read of the pass)
 	mu         sync.Mutex
 	lookupFail map[string]bool
 	lookupErr  string
@@ -119,6 +129,11 @@ type sim struct {
 func (s *sim) wrap(c client.Client) client.Client {
 	return interceptor.NewClient(c.(client.WithWatch), interceptor.Funcs{
 		List: func(ctx context.Context, cl client.WithWatch, list client.ObjectList, opts ...client.ListOption) error {
+			if _, ok := list.(*v1.NodeClaimList); ok && injection.GetControllerName(ctx) == actorGC {
+				err := cl.List(ctx, list, opts...)
+				s.afterListing()
+				return err
+			}
 			if _, ok := list.(*corev1.NodeList); !ok {
 				return cl.List(ctx, list, opts...)
 			}
@@ -168,12 +183,62 @@ func (s *sim) wrap(c client.Client) client.Client {
 	})
 }
 
+// afterListing runs the pending mid-reconcile environment steps: one schedule point between the two listing reads
+// (NodeClaim list, provider List) of a garbage-collection pass, in whichever order the controller issues them.
+func (s *sim) afterListing() {
+	s.mu.Lock()
+	mid := s.mid
+	s.mid = nil
+	s.mu.Unlock()
+	for _, st := range mid {
+		if err := s.step(st); err != nil {
+			panic(err)
+		}
+	}
+}
+
+// provHook is the harness provider with that schedule point after List.
+type provHook struct {
+	*world.Provider
+	s *sim
+}
+
+func (p provHook) List(ctx context.Context) ([]*v1.NodeClaim, error) {
+	out, err := p.Provider.List(ctx)
+	if injection.GetControllerName(ctx) == actorGC {
+		p.s.afterListing()
+	}
+	return out, err
+}
+
+// noSleepClock: the lifecycle controller sleeps one second after a status patch (to read its own writes); in the harness
+// that wait returns at once, so a reconcile does not move the scenario's clock.
+type noSleepClock struct{ clock.Clock }
+
+func (noSleepClock) Sleep(time.Duration) {}
+
+const (
+	startupKey   = "example.com/startup"
+	ephemeralKey = "node.kubernetes.io/not-ready"
+	extResName   = "example.com/gpu"
+)
+
+func taintFor(which string) corev1.Taint {
+	switch which {
+	case "startup":
+		return corev1.Taint{Key: startupKey, Effect: corev1.TaintEffectNoSchedule}
+	case "ephemeral":
+		return corev1.Taint{Key: ephemeralKey, Effect: corev1.TaintEffectNoSchedule}
+	}
+	return v1.UnregisteredNoExecuteTaint
+}
+
 func (s *sim) restart() {
 	w := s.w
 	s.exp = expiration.NewController(w.Clock, s.kube, w.Prov)
-	s.gc = garbagecollection.NewController(w.Clock, s.kube, w.Prov)
+	s.gc = garbagecollection.NewController(w.Clock, s.kube, provHook{w.Prov, s})
 	s.health = nodehealth.NewController(s.kube, w.Prov, w.Clock, w.Rec)
-	s.lc = nclifecycle.NewController(w.Clock, s.kube, w.Prov, w.Rec, nodepoolhealth.NewState(), nil)
+	s.lc = nclifecycle.NewController(noSleepClock{w.Clock}, s.kube, w.Prov, w.Rec, nodepoolhealth.NewState(), nil)
 	s.views = map[string]client.Object{}
 }
 
@@ -202,6 +267,7 @@ func (s *sim) disarm() {
 	s.w.Prov.ListOutcomes, s.w.Prov.CreateOutcomes = nil, nil
 	s.mu.Lock()
 	s.lookupFail = map[string]bool{}
+	s.mid = nil
 	s.mu.Unlock()
 }
 
@@ -289,6 +355,15 @@ func (s *sim) step(st Step) error {
 		if st.Registered != "" {
 			nc.Status.Conditions = append(nc.Status.Conditions, cond(v1.ConditionTypeRegistered, st.Registered, now))
 		}
+		if st.Initialized != "" {
+			nc.Status.Conditions = append(nc.Status.Conditions, cond(v1.ConditionTypeInitialized, st.Initialized, now))
+		}
+		if st.StartupTaint {
+			nc.Spec.StartupTaints = []corev1.Taint{taintFor("startup")}
+		}
+		if st.ExtRes > 0 {
+			nc.Spec.Resources.Requests[corev1.ResourceName(extResName)] = resource.MustParse("1")
+		}
 		if st.Pid != "" {
 			nc.Status.ProviderID = st.Pid
 		}
@@ -303,8 +378,8 @@ func (s *sim) step(st Step) error {
 			// registered nodes carry Karpenter's termination finalizer: a deleted Node lingers, terminating, while it drains
 			ObjectMeta: metav1.ObjectMeta{Name: st.Name, Labels: map[string]string{corev1.LabelHostname: st.Name},
 				Finalizers: []string{v1.TerminationFinalizer}},
-			Spec: corev1.NodeSpec{ProviderID: st.Pid},
-			Status:     corev1.NodeStatus{Capacity: world.RL(2000, 4096), Allocatable: world.RL(2000, 4096)},
+			Spec:   corev1.NodeSpec{ProviderID: st.Pid},
+			Status: corev1.NodeStatus{Capacity: world.RL(2000, 4096), Allocatable: world.RL(2000, 4096)},
 		}
 		if st.Pool != "" {
 			n.Labels[v1.NodePoolLabelKey] = st.Pool
@@ -315,6 +390,14 @@ func (s *sim) step(st Step) error {
 		}
 		for t, v := range st.Conds {
 			setNodeCond(n, t, v, now)
+		}
+		for _, t := range st.Taints {
+			n.Spec.Taints = append(n.Spec.Taints, taintFor(t))
+		}
+		if st.Res != "" { // the device plugin's view of the extended resource: "zero" (not registered yet) | "one"
+			q := resource.MustParse(map[string]string{"zero": "0", "one": "1"}[st.Res])
+			n.Status.Capacity[corev1.ResourceName(extResName)] = q
+			n.Status.Allocatable[corev1.ResourceName(extResName)] = q
 		}
 		w.EnvCreate(n)
 		if st.Deleting {
@@ -336,6 +419,25 @@ func (s *sim) step(st Step) error {
 	case "SetCond":
 		n := &corev1.Node{ObjectMeta: metav1.ObjectMeta{Name: st.Name}}
 		if !w.EnvMutate(n, "SetCond-"+st.Type, func() { setNodeCond(n, st.Type, st.Status, now) }) {
+			s.skip(st.A, "no-node")
+		}
+	case "Untaint":
+		n := &corev1.Node{ObjectMeta: metav1.ObjectMeta{Name: st.Name}}
+		if !w.EnvMutate(n, "Untaint", func() {
+			var keep []corev1.Taint
+			for _, t := range n.Spec.Taints {
+				drop := false
+				for _, which := range st.Taints {
+					if t.Key == taintFor(which).Key {
+						drop = true
+					}
+				}
+				if !drop {
+					keep = append(keep, t)
+				}
+			}
+			n.Spec.Taints = keep
+		}) {
 			s.skip(st.A, "no-node")
 		}
 	case "NodeGone":
@@ -369,6 +471,7 @@ func (s *sim) step(st Step) error {
 			}
 			set(v1.ConditionTypeLaunched, st.Launched)
 			set(v1.ConditionTypeRegistered, st.Registered)
+			set(v1.ConditionTypeInitialized, st.Initialized)
 			if st.Pid != "" {
 				nc.Status.ProviderID = st.Pid
 			}
@@ -393,6 +496,7 @@ func (s *sim) step(st Step) error {
 		s.run(actorExpiration, st.Name, st.Stale, func() error { _, err := s.exp.Reconcile(s.ctx, obj.(*v1.NodeClaim)); return err })
 	case "Gc":
 		s.arm(actorGC, st)
+		s.mid = st.Mid
 		if st.Prov != "" && st.Prov != "ok" { // err | notfound | notfoundWrapped
 			w.Prov.ListOutcomes = []string{st.Prov}
 		}
@@ -425,7 +529,23 @@ func (s *sim) step(st Step) error {
 func (s *sim) addInstance(pid string, nc *v1.NodeClaim) {
 	s.w.Prov.Instances[pid] = &world.Instance{ProviderID: pid, Claim: nc.Name, Type: "small", Zone: "zone-a",
 		CapacityType: "on-demand", State: "running", NodeClaim: nc.DeepCopy()}
-	s.w.Emit(trace.M{"e": "Skip", "a": "InstanceAdded", "why": pid})
+	// provider-shaped event, so that the trace spec's picture of the provider's instance table stays complete
+	tbl := []trace.M{}
+	ids := make([]string, 0, len(s.w.Prov.Instances))
+	for id := range s.w.Prov.Instances {
+		ids = append(ids, id)
+	}
+	sort.Strings(ids)
+	for _, id := range ids {
+		i := s.w.Prov.Instances[id]
+		res := i.Reservation
+		if res == "" {
+			res = "-"
+		}
+		tbl = append(tbl, trace.M{"pid": i.ProviderID, "claim": i.Claim, "type": i.Type, "zone": i.Zone, "capacityType": i.CapacityType,
+			"reservation": res, "state": i.State})
+	}
+	s.w.Emit(trace.M{"e": "Prov", "actor": "env", "call": "InstanceAdded", "arg": pid, "uid": "-", "err": "-", "result": "running", "post": tbl})
 }
 
 // RunOne executes one behaviour in a fresh world, writing its trace.
